@@ -251,6 +251,11 @@ func mapDynamoToTypesSliceItem(input []dynamodbtypes.AttributeValue) []*types.It
 func mapDynamoToTypesItem(item dynamodbtypes.AttributeValue) *types.Item {
 	itemB, ok := item.(*dynamodbtypes.AttributeValueMemberB)
 	if ok {
+		if itemB.Value == nil {
+			// an empty binary is a valid (non-key) attribute value
+			return &types.Item{B: []byte{}}
+		}
+
 		return &types.Item{B: itemB.Value}
 	}
 
@@ -537,7 +542,7 @@ func mapTypesToDynamoLocalSecondaryIndexes(input []types.LocalSecondaryIndexDesc
 }
 
 func mapTypesToDynamoItem(item *types.Item) dynamodbtypes.AttributeValue {
-	if len(item.B) != 0 {
+	if item.B != nil {
 		return &dynamodbtypes.AttributeValueMemberB{
 			Value: item.B,
 		}
